@@ -72,11 +72,15 @@ def _nodes(root):
 
 def check(case):
     X = np.array(case["X"], dtype=np.float64)
+    xd = case.get("xdtype", "float64")
+    if xd != "float64":
+        # features that are not float64 (counts as int64 / uint8, a float32 pipeline): the labels are the caller's, whatever the features' dtype
+        X = (np.round(X * 4) + (96 if xd == "uint8" else 0) if xd in ("int64", "uint8") else X).astype(xd)
     n, d = X.shape
     y = _labels_of(case)
     Q = np.vstack([np.array(case["Q"], dtype=np.float64).reshape(-1, d), X[::3]])
     o = case["opts"]
-    facts = dict(base=case["base"], algo=o["fit_improve_algo"], max_depth=o["max_depth"], label_kind=case["label_kind"])
+    facts = dict(base=case["base"], algo=o["fit_improve_algo"], max_depth=o["max_depth"], label_kind=case["label_kind"], xdtype=xd)
     m = build_via(_mod.DecisionTreeLogisticRegression, dict(estimator=_base(case["base"]), **np_scalars(dict(
         max_depth=o["max_depth"], min_samples_split=o["min_samples_split"], min_samples_leaf=o["min_samples_leaf"],
         fit_improve_algo=o["fit_improve_algo"], p1p2=o["p1p2"], gamma=o["gamma"]), case.get("np_params", False))),
@@ -199,7 +203,7 @@ def check(case):
     labels = [case["base"], "algo=" + str(o["fit_improve_algo"]), "nodes=1" if nreal == 1 else ("nodes=2" if nreal == 2 else ("nodes<=6" if nreal <= 6 else "nodes>6")),
               "structural-" + structural, "labels=" + case["label_kind"], "ambiguous-rows" if ambiguous else "no-ambiguous-row",
               "via-copy:" + str(case.get("via_copy") or "none"), "border-probes" if probes else "no-border-probe",
-              "configured-by-set_params" if case.get("via_set_params") else "configured-by-constructor"]
+              "configured-by-set_params" if case.get("via_set_params") else "configured-by-constructor", "features:" + xd]
     return Outcome(labels, nreal >= 3)
 
 
@@ -239,6 +243,7 @@ def _cases(draw, tier="quick"):
 
 
 CLAUSES = [
-    Clause("tree", check, strategy=lambda tier: st.builds(lambda c, h, v: dict(c, via_copy=h, via_set_params=v), with_sk(with_np(_cases(tier))), st.sampled_from(COPIES), st.sampled_from([False, False, True])), quick=4000, thorough=60000, quick_shards=16,
+    Clause("tree", check, strategy=lambda tier: st.builds(lambda c, h, v: dict(c, via_copy=h, via_set_params=v), with_sk(with_np(_cases(tier))), st.sampled_from(COPIES), st.sampled_from([False, False, True])).flatmap(
+               lambda c: st.sampled_from(["float64", "float64", "float64", "int64", "uint8", "float32"]).map(lambda xd: dict(c, xdtype=xd))), quick=4000, thorough=60000, quick_shards=16,
            doc="observable clauses + reference traversal of tree_"),
 ]
